@@ -10,7 +10,7 @@
 /// let _ = format!("{}", k);
 /// ```
 /// twin:
-/// ```
+/// ```no_run
 /// let k = s3s::auth::SecretKey::from("secret");
 /// let _ = format!("{:?}", k);
 /// ```
@@ -22,7 +22,7 @@ pub struct NotDisplay;
 /// let _ = &k.0;
 /// ```
 /// twin:
-/// ```
+/// ```no_run
 /// let k = s3s::auth::SecretKey::from("secret");
 /// let _ = &k;
 /// ```
@@ -34,7 +34,7 @@ pub struct PrivateField;
 /// let _ = k.len();
 /// ```
 /// twin:
-/// ```
+/// ```no_run
 /// let k = s3s::auth::SecretKey::from("secret");
 /// let _ = k.expose().len();
 /// ```
@@ -47,7 +47,7 @@ pub struct NotDeref;
 /// takes(k);
 /// ```
 /// twin:
-/// ```
+/// ```no_run
 /// fn takes<T: AsRef<str>>(_: T) {}
 /// let k = s3s::auth::SecretKey::from("secret");
 /// let _ = k;
@@ -61,7 +61,7 @@ pub struct NotAsRef;
 /// let _: String = k.into();
 /// ```
 /// twin:
-/// ```
+/// ```no_run
 /// let k = s3s::auth::SecretKey::from("secret");
 /// let _: s3s::auth::SecretKey = k.into();
 /// ```
@@ -74,7 +74,7 @@ pub struct NotIntoString;
 /// takes(k);
 /// ```
 /// twin:
-/// ```
+/// ```no_run
 /// fn takes<T: std::borrow::Borrow<str>>(_: T) {}
 /// let k = s3s::auth::SecretKey::from("secret");
 /// let _ = k;
@@ -88,7 +88,7 @@ pub struct NotBorrow;
 /// let _ = k.to_string();
 /// ```
 /// twin:
-/// ```
+/// ```no_run
 /// let k = s3s::auth::SecretKey::from("secret");
 /// let _ = k.clone();
 /// ```
